@@ -6,6 +6,7 @@ package cemi
 
 import (
 	"fmt"
+	"io"
 
 	"github.com/vapourismo/knx-go/knx/util"
 )
@@ -98,6 +99,10 @@ func (info *Info) Unpack(data []byte) (n uint, err error) {
 	n, err = util.Unpack(data, &length)
 	if err != nil {
 		return
+	}
+
+	if uint(len(data)) < n+uint(length) {
+		return n, io.ErrUnexpectedEOF
 	}
 
 	if length > 0 {
